@@ -57,6 +57,13 @@ def single_filters():
         for neg in (False, True):
             out.append((R.pf("EMAIL", param=("TYPE", False, (needle, mt, None, neg))), "param-text-match:%s%s" % (mt, ":negated" if neg else "")))
             out.append((R.pf("TEL", param=("TYPE", False, (needle, mt, None, neg))), "param-text-match:%s%s" % (mt, ":negated" if neg else "")))
+    # two conditions in one prop-filter joined with test="allof": both must hold for the SAME property instance
+    # (multi.vcf has EMAIL;TYPE=WORK:work@example.com and EMAIL;TYPE=HOME:home@example.org)
+    for (ptype, needle, mt) in [("WORK", "work@", "starts-with"), ("HOME", "work@", "starts-with"), ("WORK", "example.org", "ends-with"), ("HOME", "example.org", "ends-with"), ("HOME", "juergen", "contains"), ("WORK", "zzz", "contains")]:
+        for neg in (False, True):
+            out.append((R.pf("EMAIL", text=(needle, mt, None, neg), param=("TYPE", False, (ptype, "equals", None, False)), test="allof"), "allof-text+param-same-instance%s" % (":negated" if neg else "")))
+    out.append((R.pf("EMAIL", text=("example", "contains", None, False), param=("TYPE", True, None), test="allof"), "allof-text+param-not-defined"))
+    out.append((R.pf("TEL", text=("555", "contains", None, False), param=("TYPE", False, ("VOICE", "equals", None, False)), test="allof"), "allof-text+param-same-instance"))
     return out
 
 
@@ -192,5 +199,5 @@ def run(tier, workers=None):
     return rep.finish("exploration", cov, assumptions=[
         "text is matched against the unescaped property value / each parameter value; property and parameter names are case-insensitive",
         "when no collation is given the RFC default (i;unicode-casemap) and xandikos' documented default (i;ascii-casemap) are both evaluated; pairs on which they differ are not judged",
-        "one condition per prop-filter (the prop-filter 'test' attribute is not exercised)",
+        "a prop-filter with two conditions is only generated with test=\"allof\" (both must hold for the same property instance); the default anyof join of two conditions is not generated (xandikos always ANDs)",
     ])
